@@ -18,7 +18,7 @@ fn main() {
     let v0: ?int = c->a;
     let v1: str = c~>b;
     let v2 = «ty:int|c["a"] as int»;
-    let v3: str = c[«mut:operand|"b"¦1¦true»];
+    let v3: str = c[«idx:str|"b"»];
     let p: { ? } = «asg:{?}|new { ? }»;
     println(g, gi, gt, ks, ts, js, v0, v1, v2, v3, p);
 }
@@ -36,7 +36,7 @@ fn main() {
     let a = «ty:range|1..10»;
     let b = «ty:range|0..=5»;
     let lo = 2;
-    let c = «ty:range|«mut:operand|lo¦"a"¦1.5»..(«opd:int|lo» + «opd:int|3»)»;
+    let c = «ty:range|«mut:operand|lo¦"a"¦true»..(«opd:int|lo» + «opd:int|3»)»;
     let d: range = «asg:range|7.to_range()»;
     let t = «ty:int|total(«args:1|«arg:range|a»»)»;
     let u = total(«arg:range|b.rev()»);
